@@ -415,6 +415,15 @@ type KeyValue interface {
 	Watch(key string, opts ...interface{}) (Watcher, error)
 }
 
+// RevisionDeleter is an optional extension of KeyValue for stores that can
+// delete a key only if its latest revision is still the given one (compare and
+// delete). The election uses it, when the store offers it, to delete its record
+// on shutdown without the risk of deleting the record of a successor that took
+// over since the record was last read.
+type RevisionDeleter interface {
+	DeleteRevision(key string, rev uint64) error
+}
+
 // JetStreamContext is an abstraction over NATS JetStream context.
 // This interface enables testing with mocks.
 type JetStreamContext interface {
@@ -454,6 +463,11 @@ func (a *natsKeyValueAdapter) Get(key string) (Entry, error) {
 
 func (a *natsKeyValueAdapter) Delete(key string) error {
 	return a.kv.Delete(key)
+}
+
+// DeleteRevision deletes key only if rev is still its latest revision.
+func (a *natsKeyValueAdapter) DeleteRevision(key string, rev uint64) error {
+	return a.kv.Delete(key, nats.LastRevision(rev))
 }
 
 func (a *natsKeyValueAdapter) Watch(key string, opts ...interface{}) (Watcher, error) {
